@@ -7,8 +7,9 @@ Arguments upd : simpl never.
 
 Section Deadlock.
 Variable loads : label -> list label.
+Variable bad : label -> bool.
 
-Lemma inv_cycle_step : forall s tid s', inv_reg s -> inv_stk s -> inv_cycle s -> kstep loads s tid s' -> inv_cycle s'.
+Lemma inv_cycle_step : forall s tid s', inv_reg s -> inv_stk s -> inv_cycle s -> kstep loads bad s tid s' -> inv_cycle s'.
 Proof.
   intros s tid s' IR IS IC K.
   assert (Hoth : forall T0 i, i <> tid -> upd (thr s) tid T0 i = thr s i) by (intros; now rewrite upd_other).
@@ -62,11 +63,11 @@ Qed.
 
 Record Inv (s : state) : Prop := { inv_r : inv_reg s; inv_s : inv_stk s; inv_c : inv_cycle s }.
 
-Lemma Inv_reachable : forall roots s, reachable loads roots s -> Inv s.
+Lemma Inv_reachable : forall roots s, reachable loads bad roots s -> Inv s.
 Proof.
   intros roots s R. induction R.
   - constructor; [apply inv_reg_init|apply inv_stk_init|apply inv_cycle_init].
-  - destruct IHR as [IR IS IC]. destruct (step_kstep loads _ _ _ H) as [Hlt K]. constructor.
+  - destruct IHR as [IR IS IC]. destruct (step_kstep loads bad _ _ _ H) as [Hlt K]. constructor.
     + eapply inv_reg_step; eauto.
     + eapply inv_stk_step; eauto.
     + eapply inv_cycle_step; eauto.
@@ -115,13 +116,13 @@ Proof.
 Qed.
 
 Lemma stuck_dec : forall s,
-  (exists tid, tid < nthr s /\ step loads s tid <> None) \/ (forall tid, tid < nthr s -> step loads s tid = None).
+  (exists tid, tid < nthr s /\ step loads bad s tid <> None) \/ (forall tid, tid < nthr s -> step loads bad s tid = None).
 Proof.
   intros s. induction (nthr s) as [|n IH].
   - right. intros; lia.
   - destruct IH as [[tid [Hlt He]]|Hn].
     + left. exists tid. split; auto.
-    + destruct (step loads s n) eqn:Hs.
+    + destruct (step loads bad s n) eqn:Hs.
       * left. exists n. split; [lia|congruence].
       * right. intros tid Hlt. destruct (Nat.eq_dec tid n) as [->|]; auto. apply Hn. lia.
 Qed.
@@ -139,19 +140,19 @@ Proof.
   destruct (H (nthr s)) as [?|Hall]; auto. contradiction.
 Qed.
 
-Lemma stuck_phase : forall s tid, inv_stk s -> tid < nthr s -> step loads s tid = None ->
+Lemma stuck_phase : forall s tid, inv_stk s -> tid < nthr s -> step loads bad s tid = None ->
   ph (thr s tid) = PFin \/ exists t, ph (thr s tid) = PWait t /\ loaded (mods s t) = false.
 Proof.
   intros s tid IS Hlt Hs.
   pose proof (s_shape _ IS tid) as Hsh. unfold shape in Hsh.
   destruct (ph (thr s tid)) eqn:Hp; auto.
-  all: try (exfalso; apply (step_enabled loads s tid Hlt Hsh); [rewrite Hp; exact I|exact Hs]).
+  all: try (exfalso; apply (step_enabled loads bad s tid Hlt Hsh); [rewrite Hp; exact I|exact Hs]).
   - exfalso. eapply step_enabled_start; eauto.
   - right. exists t. split; auto. destruct (loaded (mods s t)) eqn:Hl; auto.
     exfalso. eapply step_enabled_wait; eauto.
 Qed.
 
-Theorem deadlock_free_inv : forall s, Inv s -> ~ final s -> exists tid, step loads s tid <> None.
+Theorem deadlock_free_inv : forall s, Inv s -> ~ final s -> exists tid, step loads bad s tid <> None.
 Proof.
   intros s [IR IS IC] Hnf.
   destruct (stuck_dec s) as [[tid [_ He]]|Hstuck]; [eauto|]. exfalso.
@@ -199,12 +200,12 @@ Proof.
     destruct Hp as [[r Hr]|(t' & c & sn & Hr & _)]; congruence.
 Qed.
 
-Theorem deadlock_free : forall roots s, reachable loads roots s -> ~ final s -> exists tid, step loads s tid <> None.
+Theorem deadlock_free : forall roots s, reachable loads bad roots s -> ~ final s -> exists tid, step loads bad s tid <> None.
 Proof.
   intros roots s R. apply deadlock_free_inv. eapply Inv_reachable; eauto.
 Qed.
 
-Theorem executed_once : forall roots s, reachable loads roots s -> NoDup (execs s).
+Theorem executed_once : forall roots s, reachable loads bad roots s -> NoDup (execs s).
 Proof.
   intros roots s R. apply i_exnd. apply (Inv_reachable _ _ R).
 Qed.
